@@ -99,10 +99,25 @@ func (dht *IpfsDHT) runQuery(ctx context.Context, target string, queryFn queryFn
 role stopFn(qp *qpeerset.QueryPeerset) bool in (dht *IpfsDHT) runLookupWithFollowup(ctx context.Context, target string, queryFn queryFn, stopFn stopFn) (*lookupWithFollowupResult, error)
   pure
 
+# C03 (follow-up credits): every follow-up worker sends exactly one completion
+# on doneCh (buffered for all of them, so no worker ever blocks); the function
+# consumes exactly as many completions as it spawned workers whenever it has
+# to wait for them - never one more (it would block forever) and never fewer
+# (a worker would outlive the call).
 func (dht *IpfsDHT) runLookupWithFollowup(ctx context.Context, target string, queryFn queryFn, stopFn stopFn) (*lookupWithFollowupResult, error)
-  props C01 C02
+  props C01 C02 C03
   requires cfgOK(dht)
+  ghostvar $spawned int = 0
+  ghostvar $recv int = 0
+  ghostvar $cap int = -1
   modifies *
+  ensures [internal-followups-awaited-exactly] imp($spawned == 0, $recv == 0) && imp($spawned > 0, $recv == $spawned && $cap == $spawned)
+  loop 1 invariant $spawned == $key && $recv == 0 && $cap == len(queryPeers) && len(queryPeers) > 0
+  loop 2 invariant $spawned == len(queryPeers) && $recv == $key && followupsCompleted == $key && $cap == $spawned && lookupRes != nil && len(queryPeers) > 0
+  loop 3 invariant $spawned == len(queryPeers) && $recv == i && i <= len(queryPeers) && $cap == $spawned && lookupRes != nil && !lookupRes.completed
+  ghost at assign(doneCh): $cap = len(queryPeers)
+  ghost at go(func): $spawned = $spawned + 1
+  ghost at recv(doneCh): $recv = $recv + 1
   ensures imp(result1 != nil, result0 == nil)
   ensures imp(result1 == nil, result0 != nil && result0.$qp != nil && qpeerset.wf(result0.$qp) && !result0.$qp.$has[dht.self])
   ensures imp(result1 == nil, lookupResultOK(result0, result0.$qp, dht.bucketSize))
